@@ -67,6 +67,11 @@ func (o goStructObject) setValue(rt *runtime, name string, value Value) bool {
 	}
 
 	fieldValue := o.getValue(name)
+	if !fieldValue.CanSet() {
+		// A struct handed over by value is not addressable: the write cannot reach
+		// the Go value, and reflect would panic.
+		panic(rt.panicTypeError("cannot assign to field %s of a Go struct passed by value", name))
+	}
 	converted, err := rt.convertCallParameter(value, fieldValue.Type())
 	if err != nil {
 		panic(rt.panicTypeError("Object.setValue convertCallParameter: %s", err))
